@@ -289,15 +289,22 @@ pub fn with_rec<R>(rec: &Rec, f: impl FnOnce(&log::Record) -> R) -> R {
         };
         (put(0, &rec.target), rec.module.as_deref().map(|m| put(1, m)), rec.file.as_deref().map(|x| put(2, x)))
     });
+    // module path / file strings from STATIC_SITES travel the way the log macros hand them over: as `&'static str`
+    // (`module_path_static` / `file_static`), which a record keeps apart from borrowed strings
+    let module_static = module.as_deref().and_then(|m| STATIC_SITES.iter().find(|s| **s == m).copied());
+    let file_static = file.as_deref().and_then(|x| STATIC_SITES.iter().find(|s| **s == x).copied());
     let build = |args: fmt::Arguments| -> R {
-        f(&log::Record::builder()
-            .args(args)
-            .level(rec.level())
-            .target(&target)
-            .module_path(module.as_deref())
-            .file(file.as_deref())
-            .line(rec.line)
-            .build())
+        let mut b = log::Record::builder();
+        b.args(args).level(rec.level()).target(&target).line(rec.line);
+        match module_static {
+            Some(s) => b.module_path_static(Some(s)),
+            None => b.module_path(module.as_deref()),
+        };
+        match file_static {
+            Some(s) => b.file_static(Some(s)),
+            None => b.file(file.as_deref()),
+        };
+        f(&b.build())
     };
     // a message that is one of the compiled-in literals is handed over the way `info!("literal")` does it:
     // `Arguments::as_str()` is `Some`, no formatting machinery involved
@@ -323,6 +330,10 @@ pub fn with_rec<R>(rec: &Rec, f: impl FnOnce(&log::Record) -> R) -> R {
     });
     r
 }
+
+/// Compile-time strings for module path and file (what `module_path!()` / `file!()` produce can hold anything a path
+/// can: backslashes on Windows, quotes, spaces, non-ASCII); a record built from them carries `&'static str`s.
+pub const STATIC_SITES: [&str; 10] = ["src\\bin\\tool.rs", "C:\\new\\table\\b.rs", "a\"b\".rs", "tab\there", "line\nbreak.rs", "\u{1}ctl\u{7f}", "app::\\w::m", "plain/static.rs", "\u{fc}n\u{ef}\\\u{107}.rs", ""];
 
 thread_local! {
     static FIELD_BUFFERS: std::cell::RefCell<[String; 3]> = std::cell::RefCell::new([String::with_capacity(4096), String::with_capacity(4096), String::with_capacity(4096)]);
@@ -820,8 +831,8 @@ pub fn rec() -> impl Strategy<Value = Rec> {
         0u8..5,
         prop_oneof![6 => msg_pieces(), 1 => prop::sample::select(MSG_LITERALS.to_vec()).prop_map(|l| vec![l.to_string()])],
         rec_text(),
-        prop::option::weighted(0.7, rec_text()),
-        prop::option::weighted(0.7, rec_text()),
+        prop::option::weighted(0.7, prop_oneof![5 => rec_text(), 1 => prop::sample::select(STATIC_SITES.to_vec()).prop_map(|s| s.to_string())]),
+        prop::option::weighted(0.7, prop_oneof![5 => rec_text(), 1 => prop::sample::select(STATIC_SITES.to_vec()).prop_map(|s| s.to_string())]),
         prop::option::weighted(0.7, prop_oneof![Just(0u32), Just(1), Just(u32::MAX), any::<u32>()]),
         prop::collection::vec((mdc_key(), text(6)), 0..=4),
     )
